@@ -58,6 +58,7 @@ inline std::string vstr(const T& v)
 
 // ---- atomic ---------------------------------------------------------------------------------
 extern int g_casfail_left;
+extern int g_latewake_left;
 template <class T>
 class atomic {
     T v;
@@ -261,7 +262,7 @@ struct condition_variable {
         }
         emit("cn1 " + name_of(this) + " " + std::to_string(who));
     }
-    // returns reason: 0 notified, 1 spurious, 2 timeout
+    // returns reason: 0 notified, 1 spurious, 2 timeout (trace reasons: notified | spurious | timeout | late)
     int wait_impl(std::unique_lock<mutex>& lk, bool timed)
     {
         mutex* m = lk.mutex();
@@ -288,11 +289,16 @@ struct condition_variable {
         if (it != waiters.end()) {
             waiters.erase(it);
             reason = (c == EN_TIMEOUT) ? 2 : 1;
+        } else if (timed && g_latewake_left > 0 && chance(1, 4, "latewake")) {
+            // a timed wait that WAS notified may still report cv_status::timeout: the status only says that the
+            // deadline had passed when the thread got the mutex back (scheduler's choice, budgeted per run)
+            --g_latewake_left;
+            reason = 3;
         }
         m->owner = me + 1;
-        static const char* rn[] = {"notified", "spurious", "timeout"};
+        static const char* rn[] = {"notified", "spurious", "timeout", "late"};
         emit("cwk " + name_of(this) + " " + name_of(m) + " " + rn[reason]);
-        return reason;
+        return reason == 3 ? 2 : reason;  // the caller sees a late wake-up as a time-out
     }
     void wait(std::unique_lock<mutex>& lk) { wait_impl(lk, false); }
     template <class P>
